@@ -129,7 +129,21 @@ func (dps *DefaultPathStrategy) GetRequestInfo(urlCtx base.UrlContext, rootOutPa
 		ri.FileNameWithPath = filepath.Join(rootOutPath, ri.StreamName, filename)
 	}
 
+	// 流名称来自请求的uri（比如".."），拼接后的文件必须仍然位于rootOutPath之内
+	if ri.FileNameWithPath != "" && !isUnderRoot(rootOutPath, ri.FileNameWithPath) {
+		return RequestInfo{}
+	}
+
 	return
+}
+
+// isUnderRoot filename是否位于root目录之内
+func isUnderRoot(root string, filename string) bool {
+	rel, err := filepath.Rel(root, filename)
+	if err != nil {
+		return false
+	}
+	return rel != ".." && !strings.HasPrefix(rel, ".."+string(filepath.Separator))
 }
 
 // GetMuxerOutPath <rootOutPath>/<streamName>
